@@ -486,6 +486,8 @@ fn classify(stderr: &str) -> (&'static str, &'static str) {
     }
     if stderr.contains("Causality violation") || stderr.contains("concurrent") || stderr.contains("Concurrent") {
         ("C09", "causality_violation")
+    } else if stderr.contains("access to a flag that was not initialised") {
+        ("C09", "uninitialised_flag")
     } else if stderr.contains("use of a bucket that is not allocated") || stderr.contains("double free of a bucket") {
         ("C09", "bucket_lifetime")
     } else if stderr.contains("deadlock") {
@@ -599,6 +601,12 @@ fn parent(id: &str, tier: &str) -> ! {
                     }
                 }
                 rep.extra("sequential_histories", json!(h));
+            }
+            Ok(out) if out.status.code().is_none() => {
+                // killed by a signal (abort on heap corruption, segmentation fault): the library was
+                // driven through safe calls only, so this is memory unsafety of the tree under test
+                let err: String = String::from_utf8_lossy(&out.stderr).lines().filter(|l| !l.trim().is_empty()).take(3).collect::<Vec<_>>().join(" | ");
+                rep.acc.violation("C08/seq/process_died", "the process running push/extend histories on the vector was killed by a signal (memory unsafety)", || json!({"status": format!("{:?}", out.status), "stderr": err.chars().take(300).collect::<String>()}));
             }
             Ok(out) => machinery_failure(&format!("sequential C08 child failed: {:?} {}", out.status, String::from_utf8_lossy(&out.stderr).chars().take(300).collect::<String>())),
             Err(e) => machinery_failure(&format!("cannot run {}: {e}", e1.display())),
